@@ -267,7 +267,8 @@ def LS.scanLongString (l : LS) : LS × Bytes :=
       let l := if countNl str > 0 then
           { l with line := l.line + countNl str, lineStart := l.cur - lastLineLen str }
         else l
-      (l.err l.heardLocAtEnd "missing `]]`", [])
+      -- the look-ahead taken for the error location re-enters NextTokenStruct, which moves tokenStartPos
+      ({ (l.err l.heardLocAtEnd "missing `]]`") with tokStart := l.cur }, [])
     | some idx =>
       let str := normNewlines ((l.chunk.take idx).drop lb.length)
       let l := l.next (idx + lbEnd.length)
@@ -458,7 +459,7 @@ def LS.scanShortString (l : LS) (conv : List (Bytes × Nat)) : LS × Bytes :=
       let l := s.l
       if st >= ch.length then
         let l := l.next s.i
-        (l.err l.heardLocAtEnd "unfinished string", [])
+        ({ (l.err l.heardLocAtEnd "unfinished string") with tokStart := l.cur }, [])
       else
         let str := str ++ (ch.drop st).take (s.i - 1 - st)
         match convCount conv str with
